@@ -116,6 +116,12 @@ def run_instance(task):
                 res['inconclusive'].append(f'Z3Exception: {ex}'[:200] + ' @ ' + _where())
             except Exception as ex:
                 status = 'exception'
+                if not _raised_in_repo():
+                    # raised by harness/oracle code without the library on the stack: a defect of the machinery
+                    res['error'] = f'harness exception {type(ex).__name__}: {ex}'[:300] + ' @ ' + _where()
+                    prefix = eng.next_prefix()
+                    res['paths'] += 1
+                    continue
                 try:
                     ctx.exception(ex)
                     ctx.violations[-1:] and ctx.violations[-1].setdefault('trace', _where())
@@ -211,6 +217,11 @@ def z3_exc():
     return z3.Z3Exception
 
 
+def _raised_in_repo():
+    tb = traceback.extract_tb(sys.exc_info()[2])
+    return any(f.filename.startswith(REPO + os.sep) for f in tb)
+
+
 def _where():
     tb = traceback.extract_tb(sys.exc_info()[2])
     return ' <- '.join(f'{os.path.basename(f.filename)}:{f.lineno}:{f.name}' for f in tb[-4:])
@@ -288,7 +299,7 @@ def check(prop, tier, jobs, only=None, limit=None, cap=None, verbose=False):
     pool = ctx.Pool(jobs, initializer=worker_init, initargs=(module_name,))
     timed_out = False
     try:
-        chunks = max(1, min(8, len(tasks) // (jobs * 8) or 1))
+        chunks = 1
         it = pool.imap_unordered(run_instance, tasks, chunksize=chunks)
         done = 0
         while done < len(tasks):
